@@ -484,6 +484,71 @@ func (w *walker) walkClasses(v reflect.Value, path, norm string) {
 		h, c := extraSierraClass()
 		m[h] = c
 	})
+	// round 5: field by field through the definition of the first Sierra class (what SierraClass.Hash()
+	// reads, what it does not read, and the compiled class nobody compares)
+	for _, k := range keys {
+		if c, ok := m[k].(*core.SierraClass); ok {
+			w.walkSierra(c, fmt.Sprintf("%s[%s]<Sierra>", path, k.String()), norm+"[]<Sierra>")
+			break
+		}
+	}
+}
+
+const classTag = "CONTRACT_CLASS_V"
+
+// wrapClassVersion returns a semantic version string prefix ++ 33 bytes such that classTag+result has the
+// value of classTag+orig modulo the Stark prime (what felt.SetBytes makes of a string of 32 bytes or more).
+func wrapClassVersion(orig, prefix string) string {
+	return wrapModP(classTag+orig, classTag+prefix)[len(classTag):]
+}
+
+// walkSierra enumerates the fields of one Sierra class definition. The map holds a pointer, and the
+// bundle under the walker is a private deep copy, so the fields are mutated in place.
+func (w *walker) walkSierra(c *core.SierraClass, path, norm string) {
+	v := reflect.ValueOf(c).Elem()
+	muts := []string{"append"}
+	if len(c.SemanticVersion) > 0 {
+		muts = append(muts, "chop", "wrapPtag", "wrapPtagbump")
+	}
+	w.visit(path+".SemanticVersion", norm+".SemanticVersion", "string", muts, siteCtx{Len: len(c.SemanticVersion)}, func(m string) {
+		sv := c.SemanticVersion
+		switch m {
+		case "chop":
+			c.SemanticVersion = sv[:len(sv)-1]
+		case "wrapPtag":
+			c.SemanticVersion = wrapClassVersion(sv, sv+".")
+		case "wrapPtagbump":
+			b := []byte(sv)
+			b[len(b)-1]++
+			c.SemanticVersion = wrapClassVersion(sv, string(b)+".")
+		default:
+			c.SemanticVersion = sv + "1"
+		}
+	})
+	for _, name := range []string{"AbiHash", "ProgramHash", "EntryPoints", "Program", "Abi"} {
+		w.walk(v.FieldByName(name), path+"."+name, norm+"."+name)
+	}
+	// an entry point moved from one list to another (same selector / index, other type)
+	if n := len(c.EntryPoints.External); n > 0 {
+		w.visit(path+".EntryPoints", norm+".EntryPoints", "struct", []string{"external-to-l1handler", "external-to-constructor"}, siteCtx{Len: n}, func(m string) {
+			ep := c.EntryPoints.External[n-1]
+			c.EntryPoints.External = append([]core.SierraEntryPoint{}, c.EntryPoints.External[:n-1]...)
+			if m == "external-to-l1handler" {
+				c.EntryPoints.L1Handler = append(append([]core.SierraEntryPoint{}, c.EntryPoints.L1Handler...), ep)
+			} else {
+				c.EntryPoints.Constructor = append(append([]core.SierraEntryPoint{}, c.EntryPoints.Constructor...), ep)
+			}
+		})
+	}
+	if c.Compiled != nil {
+		w.visit(path+".Compiled", norm+".Compiled", "ptr", []string{"setnil"}, siteCtx{}, func(string) { c.Compiled = nil })
+	}
+	if c.Compiled != nil {
+		cv := reflect.ValueOf(c.Compiled).Elem()
+		for _, name := range []string{"Bytecode", "CompilerVersion", "External"} {
+			w.walk(cv.FieldByName(name), path+".Compiled."+name, norm+".Compiled."+name)
+		}
+	}
 }
 
 // extraSierraClass is a well-formed Sierra class (its hash verifies) that no generated diff declares.
